@@ -16,7 +16,7 @@ from workload import BranchPredictionPolicy, Placement, Placements, TaskState  #
 
 class HostileScheduler(BaseScheduler):
     def __init__(self, seed=0, runtime=EventTime.zero(), lookahead=EventTime.zero(), retract_schedules=False,
-                 release_taskgraphs=False, cancel_rate=0.1, cancel_cond_children=False, _flags=None):
+                 release_taskgraphs=False, cancel_rate=0.1, cancel_cond_children=False, batching=False, _flags=None):
         super().__init__(
             preemptive=False,
             runtime=runtime,
@@ -30,6 +30,8 @@ class HostileScheduler(BaseScheduler):
         self._rnd = random.Random(seed * 7919 + 13)
         self._cancel_rate = cancel_rate
         self._cancel_cond_children = cancel_cond_children
+        self._batching = batching
+        self._batches = {}  # (profile id, strategy index) -> BatchStrategy objects handed out so far
 
     def schedule(self, sim_time, workload, worker_pools):
         tasks = workload.get_schedulable_tasks(
@@ -67,9 +69,29 @@ class HostileScheduler(BaseScheduler):
                 out.append(Placement.create_task_placement(task=t))
                 continue
             pool = r.choice(pools)
-            strat = r.choice(list(t.available_execution_strategies))
+            strats = list(t.available_execution_strategies)
+            si = r.randrange(len(strats))
+            strat = strats[si]
             delay = r.choice([0, 0, 0, 1, 2, 5])
             when = sim_time + self.runtime + EventTime(delay, EventTime.Unit.US)
+            if t.state == TaskState.SCHEDULED and r.random() < 0.5:
+                # re-plan for the SAME time (possibly with another strategy / pool)
+                when = t.expected_start_time
+            if self._batching and r.random() < 0.6:
+                # batch placements: the same BatchStrategy object is handed to several tasks, also long
+                # after its earlier members have left the worker
+                from workload import BatchStrategy
+
+                key = (t.profile.id, si)
+                lst = self._batches.setdefault(key, [])
+                # a batch never gets more concurrent members than its size (that is the policy's side of the contract)
+                free = [b for b in lst if sum(1 for m in b[1] if m.state not in (TaskState.COMPLETED, TaskState.CANCELLED)) < b[0].batch_size]
+                if not free or r.random() < 0.3:
+                    lst.append((BatchStrategy(strat), []))
+                    free.append(lst[-1])
+                b = r.choice(free)
+                b[1].append(t)
+                strat = b[0]
             wid = None
             if r.random() < 0.3:
                 wid = r.choice(pool.workers).id
